@@ -30,7 +30,7 @@ use serde_json::json;
 
 use crate::lcv::pbt::*;
 use crate::lcv::props::common::*;
-use crate::lcv::sim::chain::{as_code_hash, universe_lock, universe_type, Chain};
+use crate::lcv::sim::chain::{as_code_hash, gate_lock, gen_epochs, universe_lock, universe_type, Chain, TxGen};
 use crate::lcv::sim::net::ctx;
 use crate::service::{ChainRpc, Status as TxStatusKind, TransactionRpc};
 
@@ -57,11 +57,13 @@ pub enum Mutation {
     // --- verdict-preserving ---
     Witness(u8),
     ReverseOutputs,
+    /// witnesses[0] starts with a non-zero byte: invalid iff an input is locked by the witness-gate script
+    BadWitness,
 }
 
 impl Mutation {
     fn invalidates(&self) -> bool {
-        !matches!(self, Mutation::Witness(_) | Mutation::ReverseOutputs)
+        !matches!(self, Mutation::Witness(_) | Mutation::ReverseOutputs | Mutation::BadWitness)
     }
 }
 
@@ -89,6 +91,8 @@ pub enum Ev {
     RelayTick,
     GetRelayTxs(Vec<u16>),
     NewPeer,
+    /// the raw transaction of a pool member again, with other witnesses (same hash): good ones or non-verifying ones
+    ResubmitWithOtherWitness { which: u16, bad: bool, estimate: bool },
 }
 
 #[derive(Debug, Clone, Serialize, Deserialize)]
@@ -132,7 +136,11 @@ impl ExtensionProvider for NoLoader {
 }
 
 fn spendable(lock: &Script) -> bool {
-    lock.code_hash() == as_code_hash() && lock.hash_type() == ScriptHashType::Data.into()
+    (lock.code_hash() == as_code_hash() && lock.hash_type() == ScriptHashType::Data.into()) || lock == &gate_lock()
+}
+
+fn has_gate_input(inputs: &[Known]) -> bool {
+    inputs.iter().any(|k| k.output.lock() == gate_lock())
 }
 
 fn meta(k: &Known, chain: &Chain) -> CellMeta {
@@ -147,8 +155,8 @@ fn meta(k: &Known, chain: &Chain) -> CellMeta {
 }
 
 /// The harness's own script run: resolution from the chain / the model, no client code.
-fn own_cycles(tx: &TransactionView, inputs: &[Known], code: &Known, chain: &Chain, tip: &HeaderView) -> Result<u64, String> {
-    let rtx = ResolvedTransaction { transaction: tx.clone(), resolved_cell_deps: vec![meta(code, chain)], resolved_inputs: inputs.iter().map(|k| meta(k, chain)).collect(), resolved_dep_groups: vec![] };
+fn own_cycles(tx: &TransactionView, inputs: &[Known], code: &[Known], chain: &Chain, tip: &HeaderView) -> Result<u64, String> {
+    let rtx = ResolvedTransaction { transaction: tx.clone(), resolved_cell_deps: code.iter().map(|c| meta(c, chain)).collect(), resolved_inputs: inputs.iter().map(|k| meta(k, chain)).collect(), resolved_dep_groups: vec![] };
     let consensus = Arc::new(chain.consensus.clone());
     let env = Arc::new(TxVerifyEnv::new_submit(tip));
     let _ = HardForks::new_mirana();
@@ -193,7 +201,7 @@ fn known_cells(sim: &Sim, model: &Model, prefer_pending: bool) -> Vec<Known> {
     for op in ops {
         let ci = &chain.cells[op];
         // (cellbase outputs need the cellbase maturity of the chain spec: not used as inputs)
-        if ci.spent_at.is_some() || !spendable(&ci.output.lock()) || ci.tx_index == 0 {
+        if ci.spent_at.is_some() || !spendable(&ci.output.lock()) || (ci.tx_index == 0 && ci.block > 0) || ci.data.len() > 100 {
             continue;
         }
         let indexed = sim.regs.values().any(|r| r.matches(&ci.output) && r.in_range(ci.block));
@@ -204,10 +212,11 @@ fn known_cells(sim: &Sim, model: &Model, prefer_pending: bool) -> Vec<Known> {
     v
 }
 
-fn code_cell(chain: &Chain) -> Known {
+/// The code cells of the genesis block: always-success (output 0) and the witness gate (output 11).
+fn code_cells(chain: &Chain) -> Vec<Known> {
     let tx = chain.blocks[0].transactions()[0].clone();
-    let (o, d) = tx.outputs_with_data_iter().next().unwrap();
-    Known { op: OutPoint::new(tx.hash(), 0), output: o, data: d, at: Some((0, 0)) }
+    let outs: Vec<(CellOutput, Bytes)> = tx.outputs_with_data_iter().collect();
+    [0usize, 11].iter().filter(|i| **i < outs.len()).map(|i| Known { op: OutPoint::new(tx.hash(), *i as u32), output: outs[*i].0.clone(), data: outs[*i].1.clone(), at: Some((0, 0)) }).collect()
 }
 
 const MIN_CELL: u64 = 200 * 100_000_000;
@@ -246,10 +255,11 @@ fn build(sim: &Sim, model: &mut Model, spec: &TxSpec, mutation: &Option<Mutation
         }
         outs.push((ob.build(), Bytes::from(data)));
     }
-    let code = code_cell(chain);
-    let mut deps = vec![CellDep::new_builder().out_point(code.op.clone()).dep_type(DepType::Code.into()).build()];
+    let code = code_cells(chain);
+    let mut deps: Vec<CellDep> = code.iter().map(|c| CellDep::new_builder().out_point(c.op.clone()).dep_type(DepType::Code.into()).build()).collect();
     let mut cell_inputs: Vec<CellInput> = inputs.iter().map(|k| CellInput::new(k.op.clone(), 0)).collect();
-    let mut witnesses: Vec<packed::Bytes> = vec![];
+    // a gate-locked input needs witnesses[0] to start with 0
+    let mut witnesses: Vec<packed::Bytes> = if has_gate_input(&inputs) { vec![Bytes::from(vec![0u8, model.salt as u8]).pack()] } else { vec![] };
     let header_deps: Vec<Byte32> = vec![];
     let mut valid = true;
     let mut why = "valid".to_string();
@@ -304,6 +314,10 @@ fn build(sim: &Sim, model: &mut Model, spec: &TxSpec, mutation: &Option<Mutation
             }
             Mutation::Witness(n) => witnesses = (0..(1 + n % 3)).map(|i| Bytes::from(vec![i; *n as usize % 40]).pack()).collect(),
             Mutation::ReverseOutputs => outs.reverse(),
+            Mutation::BadWitness => {
+                witnesses = vec![Bytes::from(vec![1u8 + spec.salt as u8 % 200]).pack()];
+                valid = !has_gate_input(&inputs);
+            }
         }
     }
     let mut b = TransactionBuilder::default().cell_deps(deps).inputs(cell_inputs).header_deps(header_deps).witnesses(witnesses);
@@ -365,7 +379,7 @@ fn check_announcements(sim: &mut Sim, model: &mut Model, when: &str) -> Result<(
 fn submit(sim: &mut Sim, model: &mut Model, b: &Built, estimate_first: bool, only_estimate: bool, obs: &mut Obs) -> Result<(), Failure> {
     let chain = &sim.w.chains[sim.main];
     let tip = sim.w.storage().get_tip_header().into_view();
-    let code = code_cell(chain);
+    let code = code_cells(chain);
     let json_tx: ckb_jsonrpc_types::Transaction = b.tx.data().into();
     let expected = if b.valid { Some(own_cycles(&b.tx, &b.inputs, &code, chain, &tip)) } else { None };
     if let Some(Err(e)) = &expected {
@@ -501,6 +515,8 @@ impl Property for C18 {
                 Just(Mutation::UnresolvableLock),
                 any::<u8>().prop_map(Mutation::Witness),
                 Just(Mutation::ReverseOutputs),
+                Just(Mutation::BadWitness),
+                Just(Mutation::BadWitness),
             ]
         };
         let ev = prop_oneof![
@@ -513,6 +529,7 @@ impl Property for C18 {
             3 => Just(Ev::RelayTick),
             2 => prop::collection::vec(any::<u16>(), 1..6).prop_map(Ev::GetRelayTxs),
             1 => Just(Ev::NewPeer),
+            3 => (any::<u16>(), any::<bool>(), any::<bool>()).prop_map(|(which, bad, estimate)| Ev::ResubmitWithOtherWitness { which, bad, estimate }),
         ];
         (chain_params(60), net_params(), prop::collection::vec(reg_spec(), 1..4), prop::collection::vec(ev, 1..30))
             .prop_map(|(mut chain, mut net, mut initial, events)| {
@@ -527,13 +544,21 @@ impl Property for C18 {
                 initial.push(RegSpec { script: 0, start_kind: 0, pos: 0 });
                 initial.push(RegSpec { script: 3, start_kind: 0, pos: 0 });
                 initial.push(RegSpec { script: 4, start_kind: 0, pos: 0 });
+                initial.push(RegSpec { script: 200, start_kind: 0, pos: 0 });
                 Case { chain, net, initial, events }
             })
             .boxed()
     }
 
     fn run(case: &Case, obs: &mut Obs) -> Result<(), Failure> {
-        let chain = build_chain(&case.chain);
+        let chain = {
+            let p = &case.chain;
+            let epochs = gen_epochs(p.seed, p.n_epochs.max(1) as usize, p.maxlen.max(1) as u64, 20);
+            let txgen = TxGen { density: p.density as u64, max_txs: 3, typed: p.typed as u64, same_block: p.same_block as u64, cellbase_universe: p.cellbase_universe, gate: true };
+            let mut chain = Chain::new(epochs, crate::lcv::sim::world::START_TIME, p.seed, ckb_pow::Pow::Eaglesong, txgen);
+            chain.mine_n(p.len as u64);
+            chain
+        };
         let mut sim = Sim::new(chain, build_cfg(&case.net));
         crate::verif_hooks::set_rng_seed(Some(case.chain.seed ^ 0xc18));
         sim.set_scripts(0, &case.initial);
@@ -568,6 +593,50 @@ impl Property for C18 {
                         let spec = TxSpec { inputs: vec![(i as u16).wrapping_mul(911)], n_out: 1, fee: i as u16, typed: false, data_len: i, chain_on_pending: false, salt: i as u16 };
                         if let Some(b) = build(&sim, &mut model, &spec, &None) {
                             submit(&mut sim, &mut model, &b, false, false, obs)?;
+                        }
+                    }
+                }
+                Ev::ResubmitWithOtherWitness { which, bad, estimate } => {
+                    if model.pool.is_empty() {
+                        continue;
+                    }
+                    // prefer members that spend a gate-locked cell (their verdict depends on the witness)
+                    let chain = &sim.w.chains[sim.main];
+                    let resolve = |tx: &TransactionView, model: &Model| -> Vec<Known> {
+                        tx.input_pts_iter()
+                            .filter_map(|op| {
+                                chain.cells.get(&op).map(|ci| Known { op: op.clone(), output: ci.output.clone(), data: ci.data.clone(), at: Some((ci.block, ci.tx_index)) }).or_else(|| {
+                                    model.pool.iter().find(|(h, _, _)| h == &op.tx_hash()).and_then(|(_, t, _)| t.outputs_with_data_iter().nth(Unpack::<u32>::unpack(&op.index()) as usize).map(|(o, d)| Known { op: op.clone(), output: o, data: d, at: None }))
+                                })
+                            })
+                            .collect()
+                    };
+                    let gated: Vec<usize> = (0..model.pool.len()).filter(|i| has_gate_input(&resolve(&model.pool[*i].1, &model))).collect();
+                    let i = if gated.is_empty() { idx(*which, model.pool.len()) } else { gated[idx(*which, gated.len())] };
+                    let (_, tx, _) = model.pool[i].clone();
+                    let inputs = resolve(&tx, &model);
+                    if inputs.len() != tx.inputs().len() {
+                        continue;
+                    }
+                    let w: Vec<u8> = if *bad { vec![1 + (*which as u8 % 200)] } else { vec![0, 0xaa, *which as u8] };
+                    let tx2 = tx.as_advanced_builder().set_witnesses(vec![Bytes::from(w).pack()]).build();
+                    let valid = !(*bad && has_gate_input(&inputs));
+                    if has_gate_input(&inputs) {
+                        obs.label(if *bad { "resubmit-pending-with-non-verifying-witness" } else { "resubmit-pending-with-other-good-witness" });
+                    }
+                    let b = Built { tx: tx2, inputs, valid, why: format!("pending transaction again with {} witness", if *bad { "a non-verifying" } else { "another good" }) };
+                    if valid && !*estimate {
+                        // accepted again: PendingTxs::push replaces the entry and forgets whom it was announced to (by design)
+                        let h = b.tx.hash();
+                        model.announced.retain(|(_, x)| x != &h);
+                    }
+                    let before = model.pool.iter().find(|(h, _, _)| h == &b.tx.hash()).cloned();
+                    submit(&mut sim, &mut model, &b, *estimate, *estimate, obs)?;
+                    if !valid {
+                        // the rejected variant must not have replaced the pool member
+                        model.rejected.retain(|h| h != &b.tx.hash());
+                        if let Some((h, _, _)) = before {
+                            check_get_transaction(&sim, &model, &h)?;
                         }
                     }
                 }
